@@ -17,13 +17,15 @@ CONSTANTS
   KindOrder <- %(ko)s
   DurOrder <- MCDurOrder
   Dur <- MCDur
+  TunnelKinds <- MCTunnelKinds
+  GrpcKinds <- MCGrpcKinds
   MaxServers = %(ms)d
   MaxItems = %(mi)d
   MaxStart = %(st)d
   W = 4
   Slack = 1
   GrpcIgnoresDeadline = %(gid)s
-INVARIANTS TypeOK NoAcceptAfterStart ShortCompletes BoundedReturn
+INVARIANTS TypeOK NoAcceptAfterStart ShortCompletes NothingRunsAtReturn BoundedReturn
 PROPERTIES NoNewWorkAfterStart
 CHECK_DEADLOCK FALSE
 """
